@@ -87,6 +87,25 @@ Proof.
   exact (f_equal snd g0_bound_16_15).
 Qed.
 
+(* the boundary by the theorem: g0 has 14 states; MAX = 16 builds it, MAX = 15 (14 >= MAX - 1) must refuse *)
+Example g0_14_states :
+  match from_yacc_mirror g0 noprec noprec 16 100 [] [] with
+  | Done (Some b) => nstates (built_automaton b) = 14%N
+  | _ => False
+  end.
+Proof. vm_compute. reflexivity. Qed.
+
+Example g0_state_count_refused :
+  from_yacc_mirror g0 noprec noprec 15 100 [] [] = Panic /\ storage_check_fired g0 15 100 [].
+Proof.
+  pose proof g0_14_states as H.
+  destruct (from_yacc_mirror g0 noprec noprec 16 100 [] []) as [[b|]| |] eqn:E; try contradiction.
+  assert (Hle : (15 <= 16)%N) by discriminate.
+  apply (proj1 (construction_state_count_refused g0 noprec noprec 15 16 100%nat [] [] b g0_wf
+                  (pm_noprec_consistent noprec) Hle E)).
+  rewrite H. discriminate.
+Qed.
+
 (* ---- two oracles: different numbering, same parse results ------------------------------------------- *)
 
 Definition two_runs_fact (b1 b2 : built) : Prop :=
